@@ -28,7 +28,8 @@ package jrpc2
 //@   ensures [newer] n > old(nh.Num) ==> nh.Num == n && nh.nreads == 0 && len(nh.Hash) == len(h) && (forall k int :: 0 <= k && k < len(h) ==> nh.Hash[k] == old(h[k]))
 //@   ensures [frame] nh.maxreads == old(nh.maxreads) && nh.err == old(nh.err)
 
-//@ func (*NumHash).get props=C08
+//@ func (*NumHash).get props=C08,C18
+//@   ensures [hit-is-a-copy] @C18 result2 ==> base(result1) != base(nh.Hash) && base(result1) != base(old(nh.Hash))
 //@   ensures [hit] result2 ==> old(nh.err) == nil && n != 0 && uint64(old(nh.Num)) >= n && old(nh.nreads) < old(nh.maxreads) && nh.nreads == old(nh.nreads) + 1 && result0 == uint64(old(nh.Num))
 //@   ensures [hit-hash] result2 ==> len(result1) == 32 && (forall k int :: 0 <= k && k < 32 && k < len(old(nh.Hash)) ==> result1[k] == old(nh.Hash[k]))
 //@   ensures [error-not-served] old(nh.err) != nil ==> !result2 && nh.err == nil
@@ -78,3 +79,15 @@ package jrpc2
 //@ func (*Client).Latest props=C07,C06,C08
 //@   requires c != nil
 //@   after do assume hresp.Header == nil || len((*hresp.Header).Hash) == 0 || base((*hresp.Header).Hash) != base(c.lcache.Hash)
+
+// C18: lock discipline of the shared client state (ownership clauses,
+// discharged by a must-hold lockset dataflow, not by SMT).
+//@ guarded NumHash.err,once,nreads,Num,Hash by Mutex props=C18
+//@ guarded cache.segments by Mutex props=C18
+//@ guarded segment.nreads,done,d by Mutex props=C18
+//@ held (*cache).pruneSegments c props=C18
+//@ held (*cache).pruneMaxRead c props=C18
+// Cached blocks are shared by every task reading the segment: their
+// transaction lists are only touched under the block's own lock.
+//@ guarded eth.Block.Txs by Mutex props=C18
+//@ held eth.(*Block).Tx b props=C18
